@@ -39,7 +39,7 @@ ASSUMPTIONS = [
     "umask 022 during every invocation",
 ]
 BOUNDS = {
-    "quick": "fast: 16 helpers x EAPI {0,2,3,4,6,7,8} x up to 3 destinations x up to 3 option strings x 4-12 argument lists (2362 invocations); sym: all 25 x 23 (source, link) pairs incl. un-normalised spellings; e2e: 21 real-daemon src_install sessions (every helper once; 5/5/5/6 sessions for EAPI 0/4/7/8 covering each band's rules)",
+    "quick": "fast: 16 helpers x EAPI {0,2,3,4,6,7,8} x up to 3 destinations x up to 3 option strings x 4-12 argument lists (2362 invocations); sym: all 25 x 23 (source, link) pairs incl. un-normalised spellings; e2e: 18 real-daemon src_install sessions (every helper once; 5/4/9 sessions for EAPI 0/4/8, one per band, covering each band's rules)",
     "thorough": "fast: EAPI 0-8, destinations {default,/,/usr,/opt/x,/opt/x/,dir with space} x all option strings x all argument lists (6391 invocations); sym: 131 x 76 pairs; e2e: 504 real-daemon sessions (56 per EAPI 0-8)",
 }
 
@@ -804,15 +804,14 @@ def replay(case):
 # sources ${T}/verif-script.sh, then one real "install" phase per session with a freshly written script
 # (destination/option commands, then ONE helper call resolved through the EAPI's real helper PATH).
 E2E_CHUNK = 9
-# quick tier (21 real-daemon sessions, one task per EAPI band): indices into the base session list of e2e_invs.
-# Every helper once; every band's own rules: EAPI 0 (failing helper returns non-zero, dohard/dolib/dohtml allowed,
-# dodoc dir rejected), EAPI 4 (helpers die, dodoc -r, dohard banned, -i18n, dangling symlink kept), EAPI 7 (dolib and
-# dohtml banned), EAPI 8 (dosym -r).  The full list x EAPI 0-8 is the thorough tier.
+# quick tier (18 real-daemon sessions, one task = one daemon + setup phase per EAPI band 0-3 / 4-6 / 7-8): indices into
+# the base session list of e2e_invs.  Every helper once, plus each band's own rules: EAPI 0 (a failing helper returns
+# non-zero without aborting, dohard/dolib/dohtml allowed), EAPI 4 (helpers die, dohard banned, -i18n, dangling symlink
+# kept), EAPI 8 (dolib banned, dosym -r).  The full list x EAPI 0-8 is the thorough tier.
 QUICK_E2E = {
     0: {1, 7, 18, 29, 38},  # dobin into, dolib, dodoc dir (non-fatal reject), dohtml -r, dohard
-    4: {13, 15, 19, 25, 38},  # doins -r dangling, doexe opts, dodoc -r, doman -i18n, dohard banned
-    7: {5, 7, 20, 27, 29},  # dolib.so, dolib banned, doinfo, domo into, dohtml banned
-    8: {3, 6, 10, 31, 32, 37},  # dosbin, dolib.a, doins insinto+insopts, dodir diropts, keepdir, dosym -r
+    4: {13, 15, 25, 38},  # doins -r with dangling symlink, doexe exeinto+exeopts, doman -i18n, dohard banned
+    8: {3, 5, 6, 7, 20, 27, 31, 32, 37},  # dosbin, dolib.so, dolib.a, dolib banned, doinfo, domo into, dodir diropts, keepdir, dosym -r
 }
 
 
@@ -893,7 +892,7 @@ def _chunk(tier):
 
 def e2e_sessions(tier):
     """[(eapi, chunk-index)]"""
-    eapis = [0, 4, 7, 8] if tier == "quick" else list(range(9))
+    eapis = sorted(QUICK_E2E) if tier == "quick" else list(range(9))
     out = []
     for e in eapis:
         n = len(e2e_invs(e, tier))
